@@ -240,6 +240,28 @@ M('c15-newobj-value-unchecked', 'C15', 'src/containers/qtreetbl.c',
   "    if (obj == NULL || copyname == NULL\n        || (copydata == NULL && data != NULL && datasize > 0)) {", "    if (obj == NULL || copyname == NULL) {",
   'A1', 'new_obj', 'failed value copy absorbed as an empty value')
 
+# ---- C05 -------------------------------------------------------------------------------------
+M('c05-get-other-hash', 'C05', 'src/containers/qhashtbl.c',
+  "    uint32_t hash = qhashmurmur3_32(name, strlen(name));\n    int idx = hash % tbl->range;\n\n    qhashtbl_lock(tbl);\n\n    // find key\n    qhashtbl_obj_t *obj;\n    for (obj = tbl->slots[idx]; obj != NULL; obj = obj->next) {\n        if (obj->hash == hash && !strcmp(obj->name, name)) {\n            break;\n        }\n    }\n\n    void *data = NULL;",
+  "    uint32_t hash = qhashmurmur3_32(name, strlen(name) + 1);\n    int idx = hash % tbl->range;\n\n    qhashtbl_lock(tbl);\n\n    // find key\n    qhashtbl_obj_t *obj;\n    for (obj = tbl->slots[idx]; obj != NULL; obj = obj->next) {\n        if (obj->hash == hash && !strcmp(obj->name, name)) {\n            break;\n        }\n    }\n\n    void *data = NULL;",
+  'S1', 'qhashtbl_get', 'get hashes the terminator too')
+M('c05-getnext-resume', 'C05', 'src/containers/qhashtbl.c',
+  "        idx = (obj->hash % tbl->range) + 1;", "        idx = (obj->hash % tbl->range);", 'S1', 'qhashtbl_getnext', 'walk resumes in the same slot')
+M('c05-remove-hash-only', 'C05', 'src/containers/qhashtbl.c',
+  "        if (obj->hash == hash && !strcmp(obj->name, name)) {\n            // adjust link", "        if (obj->hash == hash) {\n            // adjust link",
+  'S2', 'qhashtbl_remove', 'remove matches on the hash alone')
+M('c05-prev-not-updated', 'C05', 'src/containers/qhashtbl.c',
+  "            break;\n        }\n\n        prev = obj;\n    }", "            break;\n        }\n    }", 'S3', 'qhashtbl_remove', 'predecessor never recorded')
+M('c05-no-head-case', 'C05', 'src/containers/qhashtbl.c',
+  "            if (prev == NULL)\n                tbl->slots[idx] = obj->next;\n            else\n                prev->next = obj->next;", "            if (prev != NULL)\n                prev->next = obj->next;",
+  'S3', 'qhashtbl_remove', 'chain head removal not handled')
+M('c05-replace-counts', 'C05', 'src/containers/qhashtbl.c',
+  "        // replace\n        free(obj->name);\n        free(obj->data);", "        // replace\n        free(obj->name);\n        free(obj->data);\n        tbl->num++;",
+  'T4', 'qhashtbl_put', 'replacement counted as a new key')
+M('c11-prev-skipped', 'C11', 'src/containers/qhashtbl.c',
+  "        if (obj->hash == hash && !strcmp(obj->name, name)) {\n            // adjust link", "        if (obj->hash != hash) continue;\n        if (!strcmp(obj->name, name)) {\n            // adjust link",
+  'S3', 'qhashtbl_remove', 'continue skips the predecessor update: intermediate nodes leak')
+
 
 def run_selftest(prop, rep, rule_fn, config='cmake-release'):
     """Apply every mutant of `prop` to a scratch copy, run rule_fn(prog, report) on it, and
